@@ -243,6 +243,48 @@ def exhaustive(progs, work, modes=("async", "sync"), maxchans=300, timeout=600, 
     return out
 
 
+NP_CFG = """INIT NPInit
+NEXT NPNext
+CONSTANTS
+  Modes = {"np"}
+  TraceMode = FALSE
+  MaxChans = %(maxchans)d
+INVARIANTS %(invs)s
+CONSTRAINT StateBound
+VIEW View
+CHECK_DEADLOCK FALSE
+"""
+
+
+def exhaustive_np(progs, work, maxchans=300, timeout=600, expect=None):
+    """GritsNP.tla: every interleaving of the non-polarized execution version of each contraction-free small program"""
+    invs = "NoProtocolError NPExpectedOutcome NoSharedTree"
+    corpus = [{"name": p["name"], "prog": p["dump"], "typed": True, "expect": (expect or {}).get(p["name"], ["?"])} for p in progs]
+    if not corpus:
+        return {"ok": True, "distinct": 0, "generated": 0, "per_prog": {}, "timeout": False, "programs": 0}
+    cfg = NP_CFG % {"maxchans": maxchans, "invs": invs}
+    path = work.path("corpus_np.json")
+    json.dump(corpus, open(path, "w"))
+    r = vlib.tlc("GritsNP", cfg, env={"VERIF_CORPUS": path}, workers=vlib.NCPU, timeout=timeout, work=work)
+    out = {"ok": r["ok"], "distinct": r["distinct"], "generated": r["generated"], "depth": r["depth"], "timeout": r["timeout"], "violated": r["violated"],
+           "error_text": r["error_text"], "per_prog": {}, "wall": r["wall"], "programs": len(corpus)}
+    if r["ok"] or r["timeout"]:
+        return out
+
+    def one(i):
+        p1 = work.path("corpus_np_%d.json" % i)
+        json.dump([corpus[i]], open(p1, "w"))
+        rr = vlib.tlc("GritsNP", cfg, env={"VERIF_CORPUS": p1}, workers=2, timeout=timeout, work=work)
+        return corpus[i]["name"], rr
+
+    with concurrent.futures.ThreadPoolExecutor(max_workers=6) as ex:
+        for name, rr in ex.map(one, range(len(corpus))):
+            if not rr["ok"]:
+                out["per_prog"][name] = {"violated": rr["violated"], "timeout": rr["timeout"], "error_text": rr["error_text"],
+                                         "trace_tail": rr["out"][-6000:] if rr["violated"] else None}
+    return out
+
+
 def balanced_chunks(traces, n):
     bins = [[] for _ in range(n)]
     load = [0] * n
@@ -396,6 +438,40 @@ def binding_selftest(progs, runs, work):
     return out
 
 
+def replay_stage(progs, small, work, tier, seed):
+    """spec => code: (a) sampled behaviours of GritsRT / GritsNP (all three execution versions) of the small programs, (b) for small programs with
+    contraction a search of the non-polarized model for a run-time error; each behaviour is stepped through the real interpreter by the gate."""
+    import replay
+    byname = {p["name"]: p for p in progs}
+    small = [byname[n] for n in small if byname[n].get("dump")]
+    out = {"records": [], "sampled": 0, "searched": 0, "stats": {}}
+    if not small:
+        return out
+    nsim = 240 if tier == "quick" else 2500
+    plans, st = replay.plans_for(small, work, simulate=nsim, timeout=240 if tier == "quick" else 900, seed=seed, limit_per_prog=4 if tier == "quick" else 12, tag="_sim")
+    out["stats"]["simulate"] = st
+    out["sampled"] = sum(len(v) for v in plans.values())
+    recs = replay.replay(small, plans)
+    # search of the np model for errors (programs with contraction: the schedule-dependent adoption of providers, known finding K4)
+    cand = [p for p in small if not contraction_free(p["dump"])][:4 if tier == "quick" else 24]
+
+    def search(p):
+        pl, st2 = replay.plans_for([p], work, modes=("np",), timeout=40 if tier == "quick" else 180, stop_at_error=True, tag="_s_" + str(abs(hash(p["name"]))), workers=2)
+        return p, pl
+
+    with concurrent.futures.ThreadPoolExecutor(max_workers=6) as ex:
+        for p, pl in ex.map(search, cand):
+            out["searched"] += 1
+            if pl:
+                recs += replay.replay([p], pl)
+    for r in recs:
+        r["verdict"] = replay.judge(r)
+        r["events"] = None
+    out["records"] = recs
+    out["by_verdict"] = dict(collections.Counter(r["verdict"] for r in recs))
+    return out
+
+
 def campaign(tier=None, seed=None, extra_progs=None, tag="rt"):
     tier = tier or vlib.tier()
     seed = vlib.seed() if seed is None else seed
@@ -469,6 +545,9 @@ def _campaign(tier, seed, extra_progs):
         exh = exhaustive(small, work, timeout=300 if tier == "quick" else 1500,
                          expect={n: e["bag"] for n, e in expect.items() if e.get("unique")})
         tm["exhaustive"] = time.time() - t1; t1 = time.time()
+        exhnp = exhaustive_np([p for p in small if contraction_free(p["dump"])], work, timeout=200 if tier == "quick" else 900,
+                              expect={n: e["bag"] for n, e in expect.items() if e.get("unique")})
+        tm["exhaustive_np"] = time.time() - t1; t1 = time.time()
         widenames = [p["name"] for p in progs if p.get("wide")]
         keep = set(widenames[:25 if tier == "quick" else 200])
         vruns = [r for r in runs if r["prog"] not in set(widenames) - keep]
@@ -477,7 +556,9 @@ def _campaign(tier, seed, extra_progs):
         val["selftest"] = binding_selftest(progs, runs, work)
         tm["selftest"] = time.time() - t1; t1 = time.time()
         own = validate_ownership(vruns, work)
-        tm["ownership"] = time.time() - t1
+        tm["ownership"] = time.time() - t1; t1 = time.time()
+        rep = replay_stage(progs, [p["name"] for p in small], work, tier, seed)
+        tm["replay"] = time.time() - t1
         rejq = {x["id"] for x in val["rejected"] if x.get("event") and x["event"].get("e") == "quiesce"}
         for r in runs:
             r["premature"] = bool(r["events"]) and (r["id"] in rejq or premature_quiescence(r["events"], r["mode"]))
@@ -498,7 +579,7 @@ def _campaign(tier, seed, extra_progs):
                 "progs": [{k: p.get(k) for k in ("name", "src", "fe", "accepted", "closed", "runnable", "text", "ast", "scheme", "wide", "ids", "mutation")} | {
                     "cfree": contraction_free(p["dump"]) if p.get("dump") else None, "size": size.get(p["name"], 0)} for p in progs],
                 "runs": runs, "nonterminating": [p["name"] for p in progs if p["runnable"] and not p.get("terminates")], "exhaustive": exh, "small": [p["name"] for p in small], "validation": val, "expect": expect,
-                "matrix": [list(c) for c in cfgs], "timing": tm, "ownership": own, "sax": saxexp, "sax_confluence": saxconf, "sax_orders": saxval}
+                "matrix": [list(c) for c in cfgs], "timing": tm, "ownership": own, "replay": rep, "exhaustive_np": exhnp, "sax": saxexp, "sax_confluence": saxconf, "sax_orders": saxval}
 
 
 if __name__ == "__main__":
